@@ -70,3 +70,32 @@ contract(D + 'split_joint_labels', props=['C04', 'C10'],
                                     "forall(0, stacked_series_lengths[i], lambda i2: "
                                     "label_lists[i][i2] == joint_labels[start + i2])"],
                         modifies=["label_lists"])})
+
+# wrong kind of input (a list of arrays): the attribute access data.shape raises AttributeError
+contract(D + 'stack_training_data#list', props=['C20'],
+         params=dict(data='list[arr2[real]]', window_size='int'), returns='arr2[real]',
+         raises={'AttributeError': "True"}, ensures=[])
+
+_MS_CELL = ("forall(lambda s, i2, j2, k2: implies(0 <= s and s < {n} and 0 <= i2 and i2 < all_series[s].shape[0] - window_size + 1 and "
+            "0 <= j2 and j2 < window_size and 0 <= k2 and k2 < all_series[s].shape[1], "
+            "{res}[row_offset({res}, s) + i2, j2*all_series[s].shape[1] + k2] == all_series[s][i2 + j2, k2]))")
+contract(D + 'stack_training_data_multiple_series', props=['C10', 'C07', 'C04'],
+         params=dict(all_series='list[arr2[real]]', window_size='int'), returns='arr2[real]',
+         requires=["len(all_series) >= 1", "window_size >= 1",
+                   "forall(0, len(all_series), lambda s: not isnone(all_series[s]) and window_size <= all_series[s].shape[0] and "
+                   "all_series[s].shape[1] == all_series[0].shape[1])"],
+         ghost={'comps': {1: dict(kind='list[arr2[real]]',
+                                  inv=["len(_comp1) == _k",
+                                       "forall(0, _k, lambda s: fresh(_comp1[s]) and allocated(_comp1[s]) and not same(_comp1[s], _comp1) and "
+                                       "_comp1[s].shape[0] == all_series[s].shape[0] - window_size + 1 and "
+                                       "_comp1[s].shape[1] == all_series[s].shape[1] * window_size)",
+                                       "forall(lambda s, i2, j2, k2: implies(0 <= s and s < _k and 0 <= i2 and i2 < all_series[s].shape[0] - window_size + 1 and "
+                                       "0 <= j2 and j2 < window_size and 0 <= k2 and k2 < all_series[s].shape[1], "
+                                       "_comp1[s][i2, j2*all_series[s].shape[1] + k2] == all_series[s][i2 + j2, k2]))"])}},
+         ensures=[("row-offsets-are-the-prefix-sums-of-the-stacked-lengths", "row_offset(result, 0) == 0 and "
+                   "forall(0, len(all_series), lambda s: row_offset(result, s + 1) == row_offset(result, s) + all_series[s].shape[0] - window_size + 1) and "
+                   "result.shape[0] == row_offset(result, len(all_series))"),
+                  "result.shape[1] == all_series[0].shape[1] * window_size",
+                  # every stacked row lies inside one series: row (offset(s)+i) is window i of series s and of no other
+                  ("concatenation-of-the-individual-stackings", _MS_CELL.format(n="len(all_series)", res="result")),
+                  "fresh(result)", "unchanged(all_series)", "forall(0, len(all_series), lambda s: unchanged(all_series[s]))"])
